@@ -509,8 +509,31 @@ def _trapz(y, x):
     return float(np.sum(0.5 * (y[1:] + y[:-1]) * (x[1:] - x[:-1])))
 
 
-ETOL = 5e-3      # calibrated: worst |ratio-1| on the unchanged tree 3.2e-4 (planar, one-sided 0.9998)
-MTOL = 5e-3
+ETOL = 2e-3      # calibrated on the unchanged tree over the regular domain (worst 1.1e-4), 10x margin
+MTOL = 2e-3
+
+
+def singular_exponents(s):
+    """exponents of the integrable singularities of the density profile: (origin, vacuum edge).
+    Standard type: rho r^(k-1) ~ lambda^e0 at the origin with e0 = (k-1) + (a3 + a2 omega)/|a2|;
+    vacuum type: rho ~ (lambda - lambda_vacuum)^a5 at the edge of the hole.  A negative exponent
+    means the exact integrand is unbounded (but integrable) there."""
+    e0 = e1 = 0.0
+    if s.solution_type == 'standard' and s.a2 != 0:
+        e0 = (s.geometry - 1) + (s.a3 + s.a2 * s.omega) / abs(s.a2)
+    if s.solution_type == 'vacuum':
+        e1 = s.a5
+    return e0, e1
+
+
+def regular(p):
+    """parameter sets whose energy and mass integrands are bounded on 0 <= r <= r2, so that the
+    solver's uniform 3001-node grid with linear interpolation resolves the integrals"""
+    try:
+        e0, e1 = singular_exponents(construct(p))
+    except Exception:
+        return False
+    return e0 >= 0.0 and e1 >= 0.0
 
 
 def _integrals(c):
@@ -525,6 +548,16 @@ def _integrals(c):
     return s, en, ma, m0
 
 
+def _site(what, s):
+    """regimes with an integrable density singularity get their own (stable) site"""
+    e0, e1 = singular_exponents(s)
+    if e0 < 0:
+        return 'Sedov:%s-integral:origin-singularity' % what
+    if e1 < 0:
+        return 'Sedov:%s-integral:vacuum-edge-singularity' % what
+    return 'Sedov:%s-integral[%s]' % (what, s.solution_type)
+
+
 def _check_energy(c):
     try:
         s, en, ma, m0 = _integrals(c)
@@ -532,7 +565,7 @@ def _check_energy(c):
         return None
     E = c['params']['eblast']
     if not abs(en / E - 1.0) <= ETOL:
-        return dict(site='Sedov:energy-integral[%s]' % s.solution_type,
+        return dict(site=_site('energy', s),
                     detail='energy behind the shock %r, eblast %r, ratio %r' % (en, E, en / E))
     return None
 
@@ -543,13 +576,70 @@ def _check_mass(c):
     except Exception:
         return None
     if not abs(ma / m0 - 1.0) <= MTOL:
-        return dict(site='Sedov:mass-integral[%s]' % s.solution_type,
+        return dict(site=_site('mass', s),
                     detail='mass behind the shock %r, initial mass inside r2 %r, ratio %r' % (ma, m0, ma / m0))
     return None
 
 
-energy = O.make(_gen((None,)), _check_energy, 'sedov.energy')
-mass = O.make(_gen((None,)), _check_mass, 'sedov.mass')
+def _gen_regular(rng):
+    while True:
+        p = sample(rng)
+        if regular(p):
+            return dict(params=p, t=rng.uniform(0.2, 2.0))
+
+
+energy = O.make(_gen_regular, _check_energy, 'sedov.energy')
+mass = O.make(_gen_regular, _check_mass, 'sedov.mass')
+
+# Regimes in which the exact density has an integrable singularity (planar standard solutions
+# with omega > 1/gamma at the origin; vacuum solutions with a5 < 0 at the edge of the hole): the
+# uniform grid + linear interpolation of the returned solution does not resolve it and the
+# integrals of the RETURNED solution are off by O(1).  Fixed witnesses, evaluated on every run.
+SINGULAR_WITNESSES = [
+    dict(params=dict(geometry=1, gamma=2.4, rho0=1.0, omega=0.85, eblast=1.0), t=1.0),    # mass ratio 2.65
+    dict(params=dict(geometry=2, gamma=1.3, rho0=1.0, omega=1.94, eblast=1.0), t=1.0),    # energy 0.850, mass 0.764
+]
+
+
+def _gen_w(i):
+    return lambda rng: SINGULAR_WITNESSES[i]
+
+
+def _seq(*runs):
+    """run several oracles one after the other and merge their reports"""
+    def run(rng, budget, deep, replay=None):
+        if replay is not None:
+            case = replay.get('case', replay)
+            for r in runs:
+                res = r(rng, budget, deep, replay=replay)
+                if res.get('failures'):
+                    return res
+            return res
+        tot = dict(evaluations=0, failures=[], samples=[], worst=None, distinct_nontrivial=0)
+        for r in runs:
+            res = r(rng, budget / len(runs), deep)
+            tot['evaluations'] += res['evaluations']
+            tot['distinct_nontrivial'] += res['distinct_nontrivial']
+            tot['failures'] += res['failures']
+            tot['samples'] += res['samples']
+        return tot
+    return run
+
+
+def _once(gen, check, name):
+    """a fixed witness: evaluated exactly once per run"""
+    inner = O.make(gen, check, name)
+
+    def run(rng, budget, deep, replay=None):
+        if replay is not None:
+            return inner(rng, budget, deep, replay=replay)
+        c = gen(rng)
+        return inner(rng, 0, deep, replay=dict(case=c))
+    return run
+
+
+energy_all = _seq(energy, _once(_gen_w(1), _check_energy, 'sedov.energy.vacuum-edge'))
+mass_all = _seq(mass, _once(_gen_w(0), _check_mass, 'sedov.mass.origin'), _once(_gen_w(1), _check_mass, 'sedov.mass.vacuum-edge'))
 
 
 def _gen_ambient(rng):
